@@ -55,6 +55,22 @@ where
     S::Bits: BitsIo,
     D::Bits: BitsIo,
 {
+    let ex = args.get_u64("exhaustive", 0);
+    if ex > 0 && ls.n == 8 && ld.n == 8 {
+        for a in 0..256u128 {
+            if ex == 2 {
+                for b in 0..256u128 {
+                    pair_ev::<S, D>(ev, ls, ld, a, b);
+                }
+            } else {
+                let r = regrid(ls, ld, a);
+                for d in [0u128, 1, 255] {
+                    pair_ev::<S, D>(ev, ls, ld, a, r.wrapping_add(d) & 0xFF);
+                }
+            }
+        }
+        return;
+    }
     let mut rng = args.rng_for(ls, 40 + ld.id());
     for _ in 0..args.n {
         let a = if rng.chance(2, 3) { gen_fixed_for_fixed(&mut rng, ls, ld) } else { gen_bits(&mut rng, ls) };
